@@ -102,7 +102,8 @@ def parse_group_type(feature: Feature) -> Optional[str]:
     elif feature.is_cardinality_group():
         rel = next((r for r in feature.get_relations() if r.is_cardinal()), None)
         if rel is not None:
-            group_type = str(rel.card_min) + ".." + str(rel.card_max)
+            card_max = '*' if rel.card_max == -1 else rel.card_max  # -1 stands for 'any number'
+            group_type = f'{rel.card_min}..{card_max}'
     elif feature.is_mutex_group():
         group_type = 'mux'
     return group_type
